@@ -510,6 +510,8 @@ def main(tier):
     for d in sorted(drift.values(), key=lambda x: (x['selector'], x['class'])):
         chk.drift.append(d)
     _range_cover(chk, tier)
+    from checks import c04 as _c04
+    _c04._mutation_part(chk)      # the state pseudo-classes after the tree was changed through the bs4 API between two calls (nothing may be remembered)
     from harness import suite
     suite.part(chk, 'C17')      # the repository's own test-suite as a trace corpus
     return chk.finish()
